@@ -140,6 +140,31 @@ func callAllMethods(v reflect.Value) []methodOutcome {
 	return outs
 }
 
+func callAllMethodsPairwise(v reflect.Value) {
+	t := v.Type()
+	for i := 0; i < t.NumMethod(); i++ {
+		if t.Method(i).Type.NumIn() != 1 {
+			continue
+		}
+		gate := make(chan struct{})
+		done := make(chan struct{}, 8)
+		for g := 0; g < 8; g++ {
+			go func() {
+				defer func() { recover(); done <- struct{}{} }()
+				<-gate
+				v.Method(i).Call(nil)
+			}()
+		}
+		close(gate)
+		for g := 0; g < 8; g++ {
+			select {
+			case <-done:
+			case <-time.After(deadline):
+			}
+		}
+	}
+}
+
 func outcomesJSON(recv string, outs []methodOutcome) (bad []any, n int, names []string) {
 	for _, o := range outs {
 		n++
@@ -229,6 +254,11 @@ func init() {
 				continue
 			}
 			npartial++
+			if a.Bool("pairwise") {
+				// every method once from eight goroutines released together (the first use of whatever the method initialises lazily is then
+				// a concurrent one); what does not come back is a fatal runtime error, which the runner attributes to this op
+				callAllMethodsPairwise(v)
+			}
 			b, n, _ := outcomesJSON(fmt.Sprintf("cut=%d", k), callAllMethods(v))
 			ncalls += n
 			if len(bad) < 20 {
